@@ -3,8 +3,575 @@
 package main
 
 import (
+	"fmt"
+	"strconv"
+	"strings"
+
 	h "github.com/New-JAMneration/JAM-Protocol/internal/verifh"
+	"github.com/New-JAMneration/JAM-Protocol/internal/verifpvm"
 )
 
+// ---- inner programs ---------------------------------------------------------------------------
+
+func le(v uint64, n int) []byte {
+	b := make([]byte, n)
+	for i := range b {
+		b[i] = byte(v >> (8 * uint(i)))
+	}
+	return b
+}
+
+type prog struct {
+	kind   string
+	blob   []byte
+	starts []int // instruction starts (entry points)
+}
+
+type asm struct{ verifpvm.Asm }
+
+func (a *asm) loadImm(reg byte, v uint64, n int) { a.Ins(append([]byte{51, reg}, le(v, n)...)...) }
+func (a *asm) loadImm64(reg byte, v uint64)      { a.Ins(append([]byte{20, reg}, le(v, 8)...)...) }
+func (a *asm) alu3(op, d, x, y byte)             { a.Ins(op, x|y<<4, d) }
+func (a *asm) alu2i(op, d, s byte, v uint64, n int) {
+	a.Ins(append([]byte{op, d | s<<4}, le(v, n)...)...)
+}
+func (a *asm) ecalli(v uint64, n int) { a.Ins(append([]byte{10}, le(v, n)...)...) }
+func (a *asm) trap()                  { a.Ins(0) }
+func (a *asm) fallthru()              { a.Ins(1) }
+
+// halt: jump_ind through r with r + imm = 2^32 - 2^16
+func (a *asm) halt(reg byte) {
+	a.Ins(51, reg, 0x00, 0x00, 0xff, 0xff) // load_imm reg = 0xffffffffffff0000
+	a.Ins(50, reg)                         // jump_ind reg + 0
+}
+func (a *asm) finish(kind string, jt []uint32, z int) prog {
+	return prog{kind: kind, blob: verifpvm.MkBlob(jt, z, a.Code, a.Mask), starts: a.Starts}
+}
+
+var ecalliVals = []uint64{0, 1, 7, 12, 100, 127, 128, 255, 256, 300, 0x7fff, 0x8000, 0xffff, 0x7fffffff, 0x80000000, 0xffffffff}
+
+func (a *asm) randEcalli(r *h.Rng) {
+	v := ecalliVals[r.Intn(len(ecalliVals))]
+	n := 0
+	for x := v; x > 0; x >>= 8 {
+		n++
+	}
+	if n < 4 && r.Chance(1, 3) {
+		n += r.Intn(4 - n + 1)
+	}
+	if r.Chance(1, 12) {
+		n = r.Intn(5) // truncating encodings as well
+	}
+	a.ecalli(v, n)
+}
+
+// how a program ends: ecalli+trap, trap, halt, or running off the end (implicit trap)
+func (a *asm) randEnd(r *h.Rng) {
+	switch r.Intn(6) {
+	case 0, 1:
+		a.randEcalli(r)
+		a.trap()
+	case 2:
+		a.trap()
+	case 3, 4:
+		a.halt(byte(r.Intn(7)))
+	default:
+		a.fallthru() // then past the end: trap
+	}
+}
+
+var aluOps3 = []byte{190, 191, 192, 200, 201, 202, 210, 211, 212, 193, 195, 203, 205, 197, 198, 207, 208, 216, 217, 218, 219, 224, 225, 226, 227, 228, 229, 230, 220, 222}
+var aluOps2i = []byte{131, 132, 133, 134, 135, 136, 137, 138, 139, 149, 150, 151, 152, 154, 147, 148, 158, 160}
+
+func randVal(r *h.Rng) uint64 {
+	switch r.Intn(5) {
+	case 0:
+		return uint64(r.Intn(16))
+	case 1:
+		return []uint64{0x7f, 0x80, 0xff, 0x7fff, 0x8000, 0xffffffff, 0x80000000, 0x7fffffffffffffff, 0x8000000000000000, ^uint64(0)}[r.Intn(10)]
+	default:
+		return r.U64() >> uint(r.Intn(64))
+	}
+}
+
+func progArith(r *h.Rng) prog {
+	a := &asm{}
+	n := 2 + r.Intn(6)
+	for i := 0; i < n; i++ {
+		switch r.Intn(5) {
+		case 0:
+			a.loadImm(byte(r.Intn(13)), randVal(r), r.Intn(5))
+		case 1:
+			a.loadImm64(byte(r.Intn(13)), randVal(r))
+		case 2, 3:
+			a.alu3(aluOps3[r.Intn(len(aluOps3))], byte(r.Intn(13)), byte(r.Intn(13)), byte(r.Intn(13)))
+		default:
+			a.alu2i(aluOps2i[r.Intn(len(aluOps2i))], byte(r.Intn(13)), byte(r.Intn(13)), randVal(r), r.Intn(5))
+		}
+		if r.Chance(1, 6) {
+			a.randEcalli(r)
+		}
+	}
+	a.randEnd(r)
+	return a.finish("arith", nil, 0)
+}
+
+// inner addresses: pages 16..19 of the inner RAM are the ones the histories open with `pages`
+func innerAddr(r *h.Rng) uint64 {
+	base := uint64(16+r.Intn(4)) * 4096
+	switch r.Intn(6) {
+	case 0:
+		return base
+	case 1:
+		return base + 4096 - uint64(1+r.Intn(8)) // straddles into the next page
+	case 2:
+		return base + uint64(r.Intn(4096))
+	case 3:
+		return uint64(r.Intn(16)) * 4096 // below 2^16: panic
+	default:
+		return base + uint64(r.Intn(256))
+	}
+}
+
+func progMem(r *h.Rng) prog {
+	a := &asm{}
+	n := 1 + r.Intn(5)
+	for i := 0; i < n; i++ {
+		ad := innerAddr(r)
+		switch r.Intn(6) {
+		case 0: // store_imm_u8/16/32/64 [ad], v
+			a.Ins(append(append([]byte{byte(30 + r.Intn(4)), 4}, le(ad, 4)...), le(randVal(r), r.Intn(5))...)...)
+		case 1: // load_* reg, [ad]
+			a.Ins(append([]byte{byte(52 + r.Intn(7)), byte(r.Intn(13))}, le(ad, 4)...)...)
+		case 2: // store_u* [ad], reg
+			a.Ins(append([]byte{byte(59 + r.Intn(4)), byte(r.Intn(13))}, le(ad, 4)...)...)
+		case 3: // store_ind_u* [rB + off], rA ; rB = r8 (the window usually puts an address there)
+			a.Ins(append([]byte{byte(120 + r.Intn(4)), byte(r.Intn(13)) | 8<<4}, le(uint64(r.Intn(64)), 1)...)...)
+		case 4: // load_ind_* rA, [rB + off]
+			a.Ins(append([]byte{byte(124 + r.Intn(7)), byte(r.Intn(13)) | 8<<4}, le(uint64(r.Intn(64)), 1)...)...)
+		default: // store_imm_ind [rA + x], y
+			a.Ins(append(append([]byte{byte(70 + r.Intn(4)), 8 | 1<<4}, le(uint64(r.Intn(64)), 1)...), le(randVal(r), r.Intn(5))...)...)
+		}
+		if r.Chance(1, 5) {
+			a.randEcalli(r)
+		}
+	}
+	a.randEnd(r)
+	return a.finish("mem", nil, 0)
+}
+
+func progLoop(r *h.Rng) prog {
+	a := &asm{}
+	switch r.Intn(3) {
+	case 0: // jump to itself: runs out of gas
+		if r.Bool() {
+			a.fallthru()
+		}
+		a.Ins(40, 0)
+	case 1: // counting loop: r1 += 1 until r1 == N
+		a.alu2i(149, 1, 1, 1, 1)                    // add_imm_64 r1 = r1 + 1   (3 bytes)
+		a.Ins(82, 1|1<<4, byte(1+r.Intn(40)), 0xfd) // branch_ne_imm r1, N, -3
+		a.randEnd(r)
+	default: // two-block loop with a store inside
+		a.Ins(append([]byte{62, 1}, le(16*4096+8, 4)...)...) // store_u64 [0x10008], r1
+		a.alu2i(149, 1, 1, 1, 1)
+		a.Ins(40, 0xf7) // jump -9 (back to 0)
+	}
+	return a.finish("loop", nil, 0)
+}
+
+func progJumpTable(r *h.Rng) prog {
+	a := &asm{}
+	// 0: load_imm r1, 2*(k+1) ; jump_ind r1 ; targets: blocks each "load_imm r2, k ; ecalli k ; trap"
+	k := r.Intn(3)
+	a.loadImm(1, uint64(2*(k+1)), 1)
+	a.Ins(50, 1)
+	var jt []uint32
+	for i := 0; i < 3; i++ {
+		jt = append(jt, uint32(len(a.Code)))
+		a.loadImm(2, uint64(40+i), 1)
+		a.ecalli(uint64(i+1), 1)
+		a.trap()
+	}
+	if r.Chance(1, 4) {
+		jt[r.Intn(3)] = uint32(r.Intn(len(a.Code) + 3)) // maybe not a block start: panic
+	}
+	z := 1 + r.Intn(2)
+	return a.finish("jumptable", jt, z)
+}
+
+func progEmpty(r *h.Rng) prog { return prog{kind: "empty", blob: []byte{0, 0, 0}, starts: []int{0}} }
+
+// programs that must be refused by `machine`
+func badBlob(r *h.Rng) prog {
+	switch r.Intn(7) {
+	case 0:
+		return prog{kind: "bad-random", blob: r.Bytes(r.Intn(40))}
+	case 1: // truncated valid blob
+		p := progArith(r)
+		cut := 1 + r.Intn(len(p.blob))
+		return prog{kind: "bad-truncated", blob: p.blob[:len(p.blob)-cut]}
+	case 2: // trailing byte
+		p := progArith(r)
+		return prog{kind: "bad-trailing", blob: append(p.blob, byte(r.U64()))}
+	case 3: // declared code length beyond the blob
+		return prog{kind: "bad-codelen", blob: append([]byte{0, 0, byte(1 + r.Intn(120))}, r.Bytes(r.Intn(4))...)}
+	case 4: // huge declared lengths
+		b := []byte{0xff}
+		b = append(b, r.Bytes(8)...)
+		b = append(b, byte(r.Intn(9)), 0xff)
+		b = append(b, r.Bytes(8)...)
+		return prog{kind: "bad-huge", blob: append(b, r.Bytes(r.Intn(6))...)}
+	case 5: // jump table declared, not present
+		return prog{kind: "bad-jt", blob: []byte{byte(1 + r.Intn(100)), byte(1 + r.Intn(8)), 1, 0, 1}}
+	default:
+		return prog{kind: "bad-empty", blob: nil}
+	}
+}
+
+func randProg(r *h.Rng) prog {
+	switch r.Intn(12) {
+	case 0, 1, 2, 3:
+		return progArith(r)
+	case 4, 5, 6:
+		return progMem(r)
+	case 7, 8:
+		return progLoop(r)
+	case 9:
+		return progJumpTable(r)
+	case 10:
+		if r.Chance(1, 4) {
+			return progEmpty(r)
+		}
+		return progArith(r)
+	default:
+		return badBlob(r)
+	}
+}
+
+// ---- histories --------------------------------------------------------------------------------
+
+const pg = 4096
+
+type gstate struct {
+	r      *h.Rng
+	ops    []string
+	acc    map[int]int // outer page -> access (absent = not in map)
+	live   []uint64    // machine ids believed alive
+	st     h.Stats
+	nextAt uint64 // bump pointer for blobs in page 16
+}
+
+func (g *gstate) emit(f string, a ...interface{}) { g.ops = append(g.ops, fmt.Sprintf(f, a...)) }
+
+func (g *gstate) pagesWith(acc int) []int {
+	var out []int
+	for p := 16; p < 26; p++ {
+		if a, ok := g.acc[p]; ok && a == acc {
+			out = append(out, p)
+		}
+	}
+	return out
+}
+
+// an outer address for a buffer of n bytes that should (mostly) be writable / readable
+func (g *gstate) outerAddr(n uint64, wantWrite bool) uint64 {
+	r := g.r
+	rw := g.pagesWith(2)
+	ro := g.pagesWith(1)
+	switch r.Intn(16) {
+	case 0: // read-only page
+		if len(ro) > 0 {
+			return uint64(ro[r.Intn(len(ro))])*pg + uint64(r.Intn(pg-int(n%pg)))
+		}
+	case 1: // straddling out of a writable page into whatever follows
+		if len(rw) > 0 && n > 1 {
+			return uint64(rw[r.Intn(len(rw))]+1)*pg - uint64(1+r.Intn(int(min(n, pg))-1))
+		}
+	case 2: // absent / inaccessible / low / top of the address space
+		return []uint64{0, 4096, 15 * pg, 19 * pg, 19*pg + 4000, 26 * pg, 1<<32 - n, 1<<32 - n + 1, 1<<32 - 1, 1 << 32, 1<<63 + 17*pg,
+			^uint64(0), ^uint64(0) - n + 1}[r.Intn(13)]
+	}
+	if len(rw) == 0 {
+		return 17 * pg
+	}
+	p := rw[r.Intn(len(rw))]
+	if !wantWrite && len(ro) > 0 && r.Chance(1, 3) {
+		p = ro[r.Intn(len(ro))]
+	}
+	room := pg - int(n%pg)
+	if room <= 0 {
+		room = 1
+	}
+	return uint64(p)*pg + uint64(r.Intn(room))
+}
+
+func (g *gstate) machineID() uint64 {
+	r := g.r
+	if len(g.live) > 0 && !r.Chance(1, 10) {
+		return g.live[r.Intn(len(g.live))]
+	}
+	return []uint64{0, 1, 2, 3, 7, 1 << 32, ^uint64(0), uint64(len(g.live))}[r.Intn(8)]
+}
+
+func (g *gstate) minFree() uint64 {
+	for n := uint64(0); ; n++ {
+		found := false
+		for _, l := range g.live {
+			if l == n {
+				found = true
+			}
+		}
+		if !found {
+			return n
+		}
+	}
+}
+
+func (g *gstate) opMachine() {
+	r := g.r
+	p := randProg(r)
+	g.st.Inc("prog-" + p.kind)
+	var at uint64
+	if r.Chance(1, 10) {
+		at = g.outerAddr(uint64(len(p.blob)), false)
+	} else {
+		at = 16*pg + g.nextAt
+		g.nextAt += uint64(len(p.blob)) + uint64(r.Intn(8))
+		if g.nextAt > 3*pg {
+			g.nextAt = 0
+		}
+	}
+	if len(p.blob) > 0 {
+		g.emit("w,%d,%s", at, h.Hex(p.blob))
+	}
+	pz := uint64(len(p.blob))
+	if r.Chance(1, 25) {
+		pz = []uint64{0, pz + 1, pz - 1, 1 << 20, 1 << 32, 1<<32 + 1, ^uint64(0)}[r.Intn(7)]
+	}
+	entry := uint64(0)
+	if len(p.starts) > 0 && r.Chance(1, 4) {
+		entry = uint64(p.starts[r.Intn(len(p.starts))])
+	}
+	switch r.Intn(40) {
+	case 0:
+		entry = uint64(r.Intn(len(p.blob) + 4)) // maybe not an instruction start... only if it is one (see below)
+		ok := false
+		for _, s := range p.starts {
+			if uint64(s) == entry {
+				ok = true
+			}
+		}
+		if !ok {
+			entry = uint64(len(p.blob) + r.Intn(50)) // past the end: trap
+		}
+	case 1:
+		entry = []uint64{1 << 32, 1<<32 + 5, 1 << 63, ^uint64(0)}[r.Intn(4)]
+		g.st.Inc("machine-pc-ge-2^32")
+	}
+	g.emit("m,%d,%d,%d", at, pz, entry)
+	g.st.Inc("op-machine")
+	if !strings.HasPrefix(p.kind, "bad") && pz == uint64(len(p.blob)) && at >= 16*pg && at+pz <= 18*pg {
+		g.live = append(g.live, g.minFree())
+	}
+}
+
+func (g *gstate) opPages() {
+	r := g.r
+	n := g.machineID()
+	p := uint64(16 + r.Intn(4))
+	c := uint64(1 + r.Intn(3))
+	mode := uint64([]int{1, 2, 2, 2, 2, 3, 4, 0, 2, 1}[r.Intn(10)])
+	if r.Chance(1, 6) {
+		switch r.Intn(9) {
+		case 0:
+			p = uint64(r.Intn(16)) // below 16
+		case 1:
+			p = 1<<20 - 1 - uint64(r.Intn(3)) // top of the page space: p + c reaches 2^20 or not
+		case 2:
+			c = 1<<20 - p - uint64(r.Intn(2)) // p + c = 2^20 - 1 would be a million pages: keep it refused
+			if p+c < 1<<20 {
+				c++
+			}
+		case 3:
+			c = ^uint64(0) - p + 1 + uint64(r.Intn(20)) // p + c wraps past 2^64
+		case 4:
+			mode = uint64(5 + r.Intn(3))
+		case 5:
+			mode = []uint64{1 << 32, 1<<32 + 2, 1 << 63, ^uint64(0)}[r.Intn(4)]
+		case 6:
+			c = 0
+		case 7:
+			p = []uint64{1 << 20, 1<<32 + 16, 1<<63 + 16, ^uint64(0)}[r.Intn(4)]
+		default:
+			p, c = 1<<20-2, 1 // the last pages: legal
+		}
+	}
+	g.emit("g,%d,%d,%d,%d", n, p, c, mode)
+	g.st.Inc(fmt.Sprintf("op-pages-r%d", min(mode, 7)))
+}
+
+func (g *gstate) opPoke() {
+	r := g.r
+	z := uint64([]int{0, 1, 2, 7, 8, 16, 33, 64, 100, 4096, 4097, 5000}[r.Intn(12)])
+	if r.Chance(1, 30) {
+		z = []uint64{1 << 20, 1 << 32, 1<<32 + 1, ^uint64(0)}[r.Intn(4)]
+	}
+	src := g.outerAddr(z, false)
+	dst := innerAddr(r)
+	if r.Chance(1, 20) {
+		dst = []uint64{0, 1<<32 - z, 1<<32 - z + 1, 1 << 32, ^uint64(0)}[r.Intn(5)]
+	}
+	if r.Chance(1, 2) && z > 0 && z <= 64 { // fresh bytes to carry
+		g.emit("w,%d,%s", src, h.Hex(r.Bytes(int(z))))
+	}
+	g.emit("p,%d,%d,%d,%d", g.machineID(), src, dst, z)
+	g.st.Inc("op-poke")
+}
+
+func (g *gstate) opPeek() {
+	r := g.r
+	z := uint64([]int{0, 1, 2, 7, 8, 16, 33, 64, 100, 4096, 4097, 5000}[r.Intn(12)])
+	if r.Chance(1, 30) {
+		z = []uint64{1 << 20, 1 << 32, 1<<32 + 1, ^uint64(0)}[r.Intn(4)]
+	}
+	dst := g.outerAddr(z, true)
+	src := innerAddr(r)
+	if r.Chance(1, 20) {
+		src = []uint64{0, 1<<32 - z, 1<<32 - z + 1, 1 << 32, ^uint64(0)}[r.Intn(5)]
+	}
+	g.emit("k,%d,%d,%d,%d", g.machineID(), dst, src, z)
+	g.st.Inc("op-peek")
+}
+
+func (g *gstate) opInvoke() {
+	r := g.r
+	at := g.outerAddr(112, true)
+	// the guest prepares gas and registers
+	var gas uint64
+	switch r.Intn(12) {
+	case 0:
+		gas = 0
+	case 1:
+		gas = uint64(1 + r.Intn(3))
+	case 2:
+		gas = []uint64{1<<63 - 1, 1 << 63, 1<<63 + 5, ^uint64(0), 1 << 40}[r.Intn(5)]
+		g.st.Inc("invoke-gas-huge")
+	default:
+		gas = uint64(5 + r.Intn(200))
+	}
+	w := le(gas, 8)
+	for i := 0; i < 13; i++ {
+		v := randVal(r)
+		if i == 8 || (i < 3 && r.Chance(1, 3)) {
+			v = innerAddr(r) // base address for the indirect accesses
+		}
+		if i == 0 && r.Chance(1, 3) {
+			v = 0xffff0000 // jump_ind r0 halts
+		}
+		w = append(w, le(v, 8)...)
+	}
+	if !r.Chance(1, 8) {
+		g.emit("w,%d,%s", at, h.Hex(w))
+	}
+	g.emit("v,%d,%d", g.machineID(), at)
+	g.st.Inc("op-invoke")
+}
+
+func (g *gstate) opExpunge() {
+	n := g.machineID()
+	g.emit("x,%d", n)
+	for i, l := range g.live {
+		if l == n {
+			g.live = append(g.live[:i], g.live[i+1:]...)
+			break
+		}
+	}
+	g.st.Inc("op-expunge")
+}
+
+func outerLayout(r *h.Rng) (string, map[int]int) {
+	acc := map[int]int{}
+	var parts []string
+	add := func(p, a int, data string) {
+		acc[p] = a
+		parts = append(parts, fmt.Sprintf("%d:%d%s", p, a, data))
+	}
+	if r.Chance(3, 4) {
+		add(16, 2, "")
+		add(17, 2, ":8=0102030405060708:4090=a1a2a3a4a5a6")
+		add(18, 1, ":0=1122334455667788:100="+h.Hex(r.Bytes(40))+":4088=8899aabbccddeeff")
+		// 19 absent
+		add(20, 2, ":4095=7f")
+		add(21, 0, ":0=5a5a5a5a") // present, inaccessible, not empty
+	} else {
+		add(16, 2, "")
+		for p := 17; p < 24; p++ {
+			switch r.Intn(5) {
+			case 0:
+			case 1:
+				add(p, 0, ":16="+h.Hex(r.Bytes(4)))
+			case 2:
+				add(p, 1, ":0="+h.Hex(r.Bytes(24))+":4080="+h.Hex(r.Bytes(16)))
+			default:
+				add(p, 2, ":4092="+h.Hex(r.Bytes(4)))
+			}
+		}
+	}
+	return strings.Join(parts, ";"), acc
+}
+
+func genHistory(r *h.Rng, st h.Stats) string {
+	layout, acc := outerLayout(r)
+	g := &gstate{r: r, acc: acc, st: st}
+	n := 4 + r.Intn(14)
+	// usual shape: create, open pages, load data, run, look, run again, clean up; with random detours
+	g.opMachine()
+	for i := 1; i < n; i++ {
+		var k int
+		if len(g.live) == 0 && r.Chance(2, 3) {
+			k = 0
+		} else {
+			k = []int{0, 1, 1, 1, 2, 2, 3, 3, 4, 4, 4, 4, 4, 5}[r.Intn(14)]
+		}
+		switch k {
+		case 0:
+			g.opMachine()
+		case 1:
+			g.opPages()
+		case 2:
+			g.opPoke()
+		case 3:
+			g.opPeek()
+		case 4:
+			g.opInvoke()
+		default:
+			g.opExpunge()
+		}
+	}
+	calls := 0
+	for _, o := range g.ops {
+		if o[0] != 'w' {
+			calls++
+		}
+	}
+	gas := int64(10*calls + r.Intn(50))
+	if r.Chance(1, 12) {
+		gas = int64(10*r.Intn(calls+1)) + int64(r.Intn(10)) - int64(r.Intn(2)*5) // runs out of gas somewhere
+		st.Inc("hist-short-of-gas")
+	}
+	st.Inc("hist-len-" + strconv.Itoa(min(calls/4, 4)*4))
+	return fmt.Sprintf("h %s %d %s", layout, gas, strings.Join(g.ops, " "))
+}
+
 func gen(r *h.Rng, tier string, emit func(string)) {
+	st := h.Stats{}
+	n := 12000
+	if tier == "thorough" {
+		n = 250000
+	}
+	for i := 0; i < n; i++ {
+		emit(genHistory(r.Fork(), st))
+	}
+	h.EmitStats(emit, st)
 }
